@@ -358,6 +358,17 @@ class NPShim:
             return self._along(lambda v: _view(v).sum(), a, axis)
         return _np.sum(a, axis=axis, **kw)
 
+    def average(self, a, axis=None, weights=None, **kw):
+        if isinstance(a, _np.ndarray) and a.dtype == object or (isinstance(weights, _np.ndarray) and weights.dtype == object):
+            if axis not in (None, 0) or (isinstance(a, _np.ndarray) and a.ndim != 1):
+                raise NotImplementedError('average along an axis of an object array')
+            if weights is None:
+                return self.mean(a)
+            num = _view(a * weights).sum()
+            den = _view(_np.asarray(weights, dtype=object)).sum()
+            return num / den
+        return _np.average(a, axis=axis, weights=weights, **kw)
+
     def nanmax(self, a, axis=None, **kw):
         if isinstance(a, _np.ndarray) and a.dtype == object and axis is None:
             vals = [e for e in a.reshape(-1) if not sx._isnan(e)]
